@@ -261,17 +261,17 @@ def variants(spec):
     if spec.get("serialize"):
         return ["B", "BC"]      # Boost.Serialization is offered by back / back11 only
     if any(":" in e for e in spec["events"] if isinstance(e, str)):
-        return ["B", "M"]
+        return ["B", "M"]       # base-class and Kleene triggers: run-time-speed policies with flat_fold dispatch (C18 quantifier)
     if any("cond_defer" in st for M in spec["machines"] for st in M.get("state", {}).values()) or spec["name"].startswith("rand_dfm"):
-        return ["M", "MA", "MC"]    # deferral at any level / conditional deferral: backmp11       # base-class and Kleene triggers: run-time-speed policies with flat_fold dispatch (C18 quantifier)
+        return ["M", "MA", "MC"]    # deferral at any level / conditional deferral: backmp11
     # back11 does not compile sm-internal tables (compile-time limit); everything else it shares with back
     if not any(M.get("internal") for M in spec["machines"]) and not any(isinstance(e, dict) for e in spec["events"]):
         v.append("B11")
-    for M in spec["machines"]:
-        has_compl = any(" + " not in r.split("->")[0].split("[")[0].split("/")[0] for r in M["rows"])
-        if has_compl and M.get("internal"):
-            v.remove("BC")
-            break
+    # back + favor_compile_time forwards every event type, the completion event included, to every sub-machine and cannot
+    # instantiate the completion dispatch table of a machine that has an sm-internal table (compile-time limit)
+    any_compl = any(" + " not in r.split("->")[0].split("[")[0].split("/")[0] for M in spec["machines"] for r in M["rows"])
+    if any_compl and any(M.get("internal") for M in spec["machines"]):
+        v.remove("BC")
     return v
 
 
